@@ -212,6 +212,29 @@ func genWiring(repo string) (string, error) {
 	if err != nil {
 		return "", err
 	}
+	// every partitioner.GetPartitionMethod(<arg>) call of main.go: the partitioner's configuration and the
+	// transport configuration (the Kinesis batch factory reads it to decide between "record keyed by the
+	// batch's key" and "record keyed by its own LSN") must be derived from the same text
+	{
+		var reads []string
+		src, rerr := os.ReadFile(filepath.Join(repo, "main/main.go"))
+		if rerr != nil {
+			return "", rerr
+		}
+		fset := token.NewFileSet()
+		f, perr := parser.ParseFile(fset, "main.go", src, 0)
+		if perr != nil {
+			return "", perr
+		}
+		ast.Inspect(f, func(n ast.Node) bool {
+			if c, ok := n.(*ast.CallExpr); ok && strings.HasSuffix(exprString(c.Fun), "GetPartitionMethod") && len(c.Args) == 1 {
+				a := c.Args[0]
+				reads = append(reads, gstr(strings.Join(strings.Fields(string(src[fset.Position(a.Pos()).Offset:fset.Position(a.End()).Offset])), " ")))
+			}
+			return true
+		})
+		fmt.Fprintf(&sb, "(* main/main.go: the argument text of every partitioner.GetPartitionMethod(...) call (one feeds the partitioner, one the transport configuration) *)\nDefinition main_partition_method_reads : list string := %s.\n\n", glist(reads))
+	}
 	waits, timer := false, false
 	ast.Inspect(s.file, func(n ast.Node) bool {
 		if u, ok := n.(*ast.UnaryExpr); ok && u.Op == token.ARROW {
